@@ -10,6 +10,8 @@ mod eng_mdd;
 mod eng_seq;
 mod eng_par;
 mod eng_viz;
+mod eng_ex;
+mod exgen;
 
 pub struct Args {
     pub engine: String,
@@ -47,7 +49,9 @@ fn main() {
         "seq" => eng_seq::run_seq(&a),
         "seqcut" => eng_seq::run_seqcut(&a),
         "par" => eng_par::run_par(&a),
+        "parstress" => eng_par::run_parstress(&a),
         "viz" => eng_viz::run_viz(&a),
+        "ex" => eng_ex::run_ex(&a),
         e => { eprintln!("unknown engine {}", e); std::process::exit(2); }
     }
 }
